@@ -59,6 +59,8 @@ def shards(tier, seed):
     # struct classes whose reference fields are DECLARED with a non-null default (list / (name, data) / factory)
     out.append(("declared-defaults", "default"))
     out.append(("declared-defaults", "factory"))
+    # structs whose reference denotes a part of themselves, with spare room in the strings before it
+    out.append(("own-part",))
     return out
 
 
@@ -369,8 +371,95 @@ def run_case(t, vmode, dest, tier, res, seed):
     res.max_depth = max(res.max_depth, depth + 1)
 
 
+_op = {}
+
+
+def own_part_classes():
+    import xobjects as xo
+
+    if not _op:
+        Pd = type("C09opPd", (xo.Struct,), {"a": xo.Int64, "w": xo.Float64[:]})
+        Ps = type("C09opPs", (xo.Struct,), {"a": xo.Int64, "b": xo.Float64})
+        for tag, P in (("d", Pd), ("s", Ps)):
+            U = type("C09opU" + tag, (xo.UnionRef,), {"_reftypes": (Ps, Pd)})
+            _op["R" + tag] = (P, type("C09opTr" + tag, (xo.Struct,), {"s": xo.String, "inner": P, "r": xo.Ref[P], "k": xo.Int64, "t": xo.String}))
+            _op["U" + tag] = (P, type("C09opTu" + tag, (xo.Struct,), {"s": xo.String, "inner": P, "r": U, "k": xo.Int64, "t": xo.String}))
+    return _op
+
+
+def run_own_part(res):
+    """a struct whose reference denotes a PART OF ITSELF (a by-value field), with strings before that part that have spare room
+    or not (created from a capacity, shortened after creation, filled): copied to the seven destinations.  The copy reads what
+    the source reads, its reference resolves inside the copy's own buffer (the same part in the same buffer), writes to either
+    side do not show through the other."""
+    cls = own_part_classes()
+    for key, (P, T) in sorted(cls.items()):
+        for spare in ("none", "capacity", "shortened"):
+            for dest in ("same", "other", "ctx", "kind"):
+                res.cases += 1
+                res.transitions += 1
+                res.events["copy-own-part"] += 1
+                f = dict(root="St", has_refs=True, own_part=True, holder=key, spare=spare, dest=dest)
+                cid = dict(part="own-part", holder=key, spare=spare, dest=dest)
+                try:
+                    sb = place.traced("np", 0)
+                    sb.allocate(11)
+                    pv = dict(a=5, w=[1.5, 2.5, 3.5]) if key.endswith("d") else dict(a=5, b=2.5)
+                    src = T(s=21 if spare == "capacity" else "q" * (20 if spare == "shortened" else 5), inner=pv, k=8, t="tail", _buffer=sb)
+                    src.s = "short"
+                    src.r = src.inner
+
+                    def rd(x):
+                        part = lambda q: None if q is None else (type(q).__name__, int(q.a), [float(v) for v in q.w] if hasattr(q, "w") else float(q.b))
+                        return (x.s, part(x.inner), part(x.r), int(x.k), x.t)
+
+                    before = rd(src)
+                    if src.r is None or int(src.r._offset) != int(src.inner._offset):
+                        res.skipped["own-part-not-bound(C08's business)"] += 1
+                        continue
+                    cp = T(src, **dest_kwargs(dest, sb))
+                    got = rd(cp)
+                except Exception as e:
+                    res.violations.append(common.violation("C09.copy", "raises:" + common.exc_failure(e), f, cid, repr(e)))
+                    continue
+                res.oracles["equal"] += 1
+                r = None
+                if got != before:
+                    r = ("C09.equal", "copy-differs", "source reads %r, copy reads %r" % (before, got))
+                elif cp.r._buffer is not cp._buffer:
+                    r = ("C09.refs-valid", "referent-outside-own-buffer", "")
+                elif dest == "same" and int(cp.r._offset) != int(src.inner._offset):
+                    r = ("C09.refs-shared", "referent-duplicated-in-same-buffer", "copy's reference at %d, source part at %d" % (int(cp.r._offset), int(src.inner._offset)))
+                else:
+                    try:
+                        live = [(e_[1], e_[1] + e_[2]) for e_ in cp._buffer.log if e_[0] == "alloc"] if hasattr(cp._buffer, "log") else None
+                        ro = int(cp.r._offset)
+                        if live is not None and not any(lo <= ro < hi for lo, hi in live):
+                            r = ("C09.refs-valid", "part-outside-live-allocation", "reference target at %d, allocations %r" % (ro, live[:6]))
+                        if r is None:
+                            cp.r.a = 77
+                            cp.k = 66
+                            if dest != "same" and rd(src) != before:
+                                r = ("C09.independent", "write-shows-through", "source changed with the copy: %r" % (rd(src),))
+                            elif dest == "same" and (rd(src)[3] != before[3] or rd(src)[1][1] != 77):
+                                r = ("C09.refs-shared", "shared-referent-write-not-seen", "%r" % (rd(src),))
+                    except Exception as e:
+                        r = ("C09.independent", "read-raises:" + common.exc_failure(e), repr(e))
+                if r:
+                    res.outcomes["bad:" + r[1]] += 1
+                    res.violations.append(common.violation(r[0], r[1], f, cid, r[2]))
+                else:
+                    res.outcomes["ok:own-part"] += 1
+                    res.states += 1
+    res.nontrivial = res.states
+    res.max_depth = max(res.max_depth, 1)
+    return res
+
+
 def run_shard(types, tier, seed):
     res = common.ShardResult()
+    if isinstance(types, tuple) and types[0] == "own-part":
+        return run_own_part(res)
     if isinstance(types, tuple) and types[0] == "declared-defaults":
         run_declared_defaults(types[1], tier, res)
         res.nontrivial = res.states
@@ -390,6 +479,8 @@ def run_shard(types, tier, seed):
 
 
 def replay(case):
+    if case.get("part") == "own-part":
+        return [v for v in run_own_part(common.ShardResult()).violations if all(v["case"].get(k) == case.get(k) for k in ("holder", "spare", "dest"))]
     if case.get("part") == "declared-defaults":
         from . import c08
 
